@@ -550,7 +550,9 @@ def run(tier, seed):
                                  "C07_unique_name_too_long_refuted": "F-witness", "C07_unique_name_valid_when_short": "U",
                                  "C07_named_agree_real": "F (5080 datatypes x 21 versions, 4 shards)", "C07_listing_exact": "U (table fact named_agree_b as hypothesis)",
                                  "C07_listing_exact_real": "F+U (no table hypothesis; file version among the 21 AUTOSAR versions)",
-                                 "C07_version_dependent_named_real": "F"}})
+                                 "C07_version_dependent_named_real": "F", "C07_listing_named_creatable": "U (table fact named_agree_b as hypothesis)",
+                                 "C07_listing_exact_histories_real": "F+U (single-version histories, v among the 21 versions; no version / allocation hypothesis)",
+                                 "C07_listing_named_histories_real": "F+U"}})
 
 
 def replay(path):
